@@ -1483,3 +1483,8 @@ package main
 //@ func (*FailOverClientTransport).SetSecondary
 //@   requires flat: !isType(secondary, "*FailOverClientTransport")
 
+
+//@ func (*ProxyItem).removeExitServerTransports
+//@   holds p
+//@   loop 0:
+//@     invariant forall j int :: 0 <= j && j < len(ok_transports) ==> nonNil(ok_transports[j])
